@@ -298,7 +298,9 @@ func (env *CEnv) sel(n *Node) cval {
 				}
 			}
 		}
-		cfail("no field %s in %s", n.S, showValue(base.V))
+		if base.T == nil {
+			base.T = sv.T
+		}
 	}
 	if base.T == nil {
 		cfail("selector .%s on value of unknown type (%s)", n.S, showValue(base.V))
@@ -663,6 +665,9 @@ func (env *CEnv) call(n *Node) cval {
 			}
 		}
 		cfail("closure %s has no free variable %s", cv.Fn.Name(), n.Kids[1].S)
+	case "layers":
+		v := env.eval(n.Kids[0])
+		return cval{V: StrLit(handlerLayers(env, v.V, 0))}
 	case "implements":
 		// implements(x, "pkg.Iface"): the dynamic-type predicate the executor uses for x.(pkg.Iface)
 		x := env.term(n.Kids[0])
@@ -859,4 +864,39 @@ func funcValueName(v Value) string {
 		return funcValueName(&FuncV{Fn: fn.Parent()}) + "#" + fn.Name()
 	}
 	return name
+}
+
+// handlerLayers describes how a route handler value was assembled, outermost
+// layer first: "MW2(reqs=1,mountPathed=true)>EmailVerify.Wrap>ErrorHandler.Wrap>(*TOTP).PostSetup".
+func handlerLayers(env *CEnv, v Value, depth int) string {
+	if depth > 8 {
+		return "..."
+	}
+	switch x := v.(type) {
+	case *IfaceV:
+		return handlerLayers(env, x.V, depth)
+	case *WrappedH:
+		return x.Kind + ">" + handlerLayers(env, x.Inner, depth+1)
+	case *ClosureV:
+		name := x.Fn.Name()
+		bind := func(n string) Value {
+			for i, fv := range x.Fn.FreeVars {
+				if fv.Name() == n && i < len(x.Bind) {
+					if p, ok := x.Bind[i].(*PtrV); ok {
+						return env.ex.load(env.st, p, nil)
+					}
+					return x.Bind[i]
+				}
+			}
+			return nil
+		}
+		switch {
+		case name == "MountedMiddleware2$1$1":
+			return fmt.Sprintf("MW2(reqs=%s,mountPathed=%s)>%s", showValue(bind("reqs")), showValue(bind("mountPathed")), handlerLayers(env, bind("next"), depth+1))
+		case name == "Wrap$1" && x.Fn.Parent() != nil && strings.Contains(x.Fn.Parent().String(), "EmailVerify"):
+			return "EmailVerify.Wrap>" + handlerLayers(env, bind("handler"), depth+1)
+		}
+		return funcValueName(x)
+	}
+	return funcValueName(v)
 }
